@@ -121,7 +121,8 @@ class Env:
         self.facs = {}
         self.calls = []
         self.events = []
-        self.reg = Components("c16")
+        self.regs = [Components("c0")]        # object 0; more are created by "newc"
+        self.reg = self.regs[0]                # the object the current step acts upon
         self.exc = False
 
     def comp(self, v):
@@ -224,6 +225,21 @@ def do_op(env, op):
     if k == "reinit":
         c.__init__("c16")
         return None
+    if k == "newc":
+        env.regs.append(Components("c%d" % len(env.regs), bases=tuple(env.regs[b] for b in op[1])))
+        return None
+    if k == "setbases":
+        env.regs[op[1]].__bases__ = tuple(env.regs[b] for b in op[2])
+        return None
+    if k == "tamper":          # corrupt the utilities registry behind the object's back
+        if op[1] == "unreg":
+            c.utilities.unregister((), w.specs[op[2]], w.name(op[3]))
+        else:
+            c.utilities.unsubscribe((), w.specs[op[2]], env.comp(op[3]))
+        return None
+    if k == "rebuild":
+        d = c.rebuildUtilityRegistryFromLocalCache(True)
+        return ("dict", [d["needed_registered"], d["did_not_register"], d["needed_subscribed"], d["did_not_subscribe"]])
     if k == "uboth":
         # component and factory= together: "Can't specify factory and component." (TypeError)
         _, unreg, v, p, n, fac = op
@@ -232,17 +248,20 @@ def do_op(env, op):
         if unreg:
             return c.unregisterUtility(comp, prov, name, factory=f)
         return c.registerUtility(comp, prov, name, "", factory=f)
+    ev = op[-1] if isinstance(op[-1], bool) else True      # the ``event=`` argument of register*
+    if isinstance(op[-1], bool):
+        op = op[:-1]
     if k == "regU":
         _, v, p, n, i, fac, style = op
         comp, prov, name, info = env.comp(v), w.specs[p], w.name(n), info_str(i)
         if style == "factory" or fac is not None:
             f = env.fac(fac if fac is not None else 0)
             f.ret = comp
-            return c.registerUtility(None, prov, name, info, factory=f)
+            return c.registerUtility(None, prov, name, info, ev, factory=f)
         if style == "infer":
             directlyProvides(comp, prov)
-            return c.registerUtility(comp, name=name, info=info)
-        return c.registerUtility(comp, prov, name, info)
+            return c.registerUtility(comp, name=name, info=info, event=ev)
+        return c.registerUtility(comp, prov, name, info, ev)
     if k == "unregU":
         _, v, p, n, style = op
         comp, prov, name = env.comp(v), w.specs[p], w.name(n)
@@ -261,8 +280,8 @@ def do_op(env, op):
         if style == "infer":
             set_implemented(f, prov)
             f.__component_adapts__ = env.req(req, "plain")
-            return meth(f, name=name, info=info)
-        return meth(f, env.req(req, style), prov, name, info)
+            return meth(f, name=name, info=info, event=ev)
+        return meth(f, env.req(req, style), prov, name, info, ev)
     if k in ("unregA", "unregS"):
         _, v, req, p, n, style = op
         f, prov, name = env.comp(v), w.specs[p], w.name(n)
@@ -277,8 +296,8 @@ def do_op(env, op):
         f, name, info = env.comp(v), w.name(n), info_str(i)
         if style == "infer":
             f.__component_adapts__ = env.req(req, "plain")
-            return c.registerHandler(f, name=name, info=info)
-        return c.registerHandler(f, env.req(req, style), name, info)
+            return c.registerHandler(f, name=name, info=info, event=ev)
+        return c.registerHandler(f, env.req(req, style), name, info, ev)
     if k == "unregH":
         _, v, req, n, style = op
         f, name = env.comp(v), w.name(n)
@@ -289,8 +308,8 @@ def do_op(env, op):
     raise RuntimeError("unknown op %r" % (k,))
 
 
-def do_query(env, q):
-    w, c = env.world, env.reg
+def do_query(env, q, on):
+    w, c = env.world, env.regs[on]
     k = q[0]
     default = object()
     if k == "util":
@@ -326,18 +345,24 @@ def run_case(case):
     for st in case["steps"]:
         env.events = []
         env.exc = False
+        on = st.get("on", 0)
+        if st["op"][0] == "newc":
+            on = len(env.regs)
+        if on < len(env.regs):
+            env.reg = env.regs[on]
         try:
             r = do_op(env, st["op"])
-            ret = "none" if r is None else bool(r) if isinstance(r, bool) else "exc:nonbool"
+            ret = ("none" if r is None else bool(r) if isinstance(r, bool) else
+                   ["dict"] + r[1] if isinstance(r, tuple) and r[0] == "dict" else "exc:nonbool")
         except TypeError:
             ret = "TypeError"
         except Exception as e:  # noqa
             ret = "exc:" + type(e).__name__
         events = env.events
         env.events = []
-        ob = {"ret": ret, "events": events}
+        ob = {"ret": ret, "events": events, "on": on}
         try:
-            c = env.reg
+            c = env.reg = env.regs[on]
             ob["lu"] = [env.rec(r) for r in c.registeredUtilities()]
             ob["la"] = [env.rec(r) for r in c.registeredAdapters()]
             ob["ls"] = [env.rec(r) for r in c.registeredSubscriptionAdapters()]
@@ -345,7 +370,10 @@ def run_case(case):
             pr = c.rebuildUtilityRegistryFromLocalCache()
             ob["probe"] = [pr["needed_registered"], pr["did_not_register"], pr["needed_subscribed"],
                            pr["did_not_subscribe"]]
-            ob["answers"] = [do_query(env, q) for q in st.get("queries", [])]
+            qs = st.get("queries", [])
+            qon = st.get("qon") or [on] * len(qs)
+            ob["qon"] = qon
+            ob["answers"] = [do_query(env, q, r_) for q, r_ in zip(qs, qon)]
             if env.events:          # listings / probe / queries must not emit events
                 env.exc = True
         except Exception as e:  # noqa
